@@ -10,6 +10,7 @@ CONSTANTS
   TG = "t22d"
   LAYOUTS = {"dfs"}
   EMIT = TRUE
+VIEW View
 INVARIANTS LawArithAff ResultWellFormed
 ACTION_CONSTRAINT Emit
 CHECK_DEADLOCK FALSE
